@@ -77,10 +77,19 @@ def stream_values(ctx):
         # where the Python evaluator refuses (python_exc) nothing is claimed ("where it accepts")
 
     verdicts = check_values(ctx, 'c01', vcases, relbits=-30)
+    # classification of disagreements through bioNormalCdf: do they match the KNOWN engine defect
+    # (1 + (1 - Phi x) for x >= 6)?  Re-judge them against the defect model; an agreement there is the known finding.
+    ncdf = [i for i, (v, _) in enumerate(verdicts) if v == 'differ' and meta[i][0] == 'e' and 'NormalCdf' in json.dumps(vcases[i]['expr'])]
+    known_ncdf = set()
+    if ncdf:
+        again = check_values(ctx, 'c01defect', [vcases[i] for i in ncdf], relbits=-30, phi='PhiI_engine_defect')
+        known_ncdf = {i for i, (v, _) in zip(ncdf, again) if v == 'agree'}
     und = {'e': 0, 'p': 0}
     anyrow = {}
-    for (kind, c, row, obs, flag), (v, info) in zip(meta, verdicts):
+    for idx, ((kind, c, row, obs, flag), (v, info)) in enumerate(zip(meta, verdicts)):
         st = st_e if kind == 'e' else st_p
+        if idx in known_ncdf:
+            c = dict(c, key='C01/known/normalcdf-upper-tail-above-one')
         case = {'tree': strip_sids(c['tree']), 'betas': {k: b['value'] for k, b in c['betas'].items()}, 'row': row}
         if flag == 'any-row':
             key = id(c)
@@ -141,6 +150,58 @@ def stream_sig(ctx):
     st_ids = ctx.stream('ids', 'IdManager tables (names per class, global indices) vs Model/IdMgr.v prepare; a malformed sub-stream '
                         'plants a name used for two kinds of element; non-trivial = at least 2 parameters')
     run_sig_streams(ctx, st_sig, st_ids, ctx.n(150, 3000), ctx.n(20, 300))
+
+
+def stream_history(ctx):
+    """Sharing / side-by-side over HISTORIES: a sub-formula E shared by parents P and Q; P keeps its ids
+    while E and Q are evaluated (each preparing its own ids) in between evaluations of P."""
+    from gen_expr import Gen
+    st = ctx.stream('history_shared', 'E shared by two parents P = E + A_first*x1 (a parameter sorting before those of E) and Q = E*z_last; '
+                    'script P,E,P,Q,P with persistent ids on P; every value vs the enclosure of its own formula; non-trivial = E has a parameter')
+    rng = ctx.sub_rng('history')
+    cases = []
+    for _ in range(ctx.n(50, 800)):
+        g = Gen(rng, variables=True, max_depth=rng.choice([2, 3]), share_p=0.1, heads={'exclude': ['NormalCdf']})
+        E = g.real(g.max_depth)
+        if not E['k']:
+            E = g.node(['Bin', 'Times'], [g.beta() or g.num(), g.var()], 'real')
+        if 'sid' not in E:
+            g.sid += 1
+            E['sid'] = g.sid
+        betas = dict(g.betas)
+        betas['A_first'] = {'value': 0.75, 'fixed': False, 'positive': True, 'lb': None, 'ub': None}
+        betas['z_last'] = {'value': -1.25, 'fixed': False, 'positive': False, 'lb': None, 'ub': None}
+        P = {'h': ['Bin', 'Plus'], 'k': [E, {'h': ['Bin', 'Times'], 'k': [{'h': ['Beta', 'A_first', False], 'k': []}, {'h': ['Var', 'x1'], 'k': []}]}]}
+        Q = {'h': ['Bin', 'Times'], 'k': [E, {'h': ['Beta', 'z_last', False], 'k': []}]}
+        script = ['P', 'E', 'P', 'Q', 'P'] if rng.random() < 0.7 else ['P', 'Q', 'E', 'P']
+        cases.append({'E': E, 'P': P, 'Q': Q, 'betas': betas, 'rows': g.rows(2), 'script': script})
+    res = ctx.impl_cases('c01_history.py', cases, chunk=10)
+    vc, meta = [], []
+    for c, r in zip(cases, res):
+        if 'crash' in r or 'build_exc' in r:
+            ctx.violation('C01/history/exception', 'a history of evaluations of well-formed formulas failed', {'script': c['script'], 'E': strip_sids(c['E'])},
+                          None, r.get('crash') or r.get('build_exc'))
+            continue
+        benv = {k: v['value'] for k, v in c['betas'].items()}
+        st.record({'E': strip_sids(c['E']), 'script': c['script']}, nontrivial=bool(c['betas']) and len(c['betas']) > 2)
+        for step, (who, vals) in enumerate(zip(c['script'], r['steps'])):
+            tree = strip_sids(c[who])
+            if not isinstance(vals, list):
+                for row in c['rows']:
+                    vc.append({'expr': tree, 'env': {'beta': benv, 'var': row}, 'observed': 'error'})
+                    meta.append((c, step, who))
+                continue
+            for row, v in zip(c['rows'], vals):
+                vc.append({'expr': tree, 'env': {'beta': benv, 'var': row}, 'observed': v})
+                meta.append((c, step, who))
+    for (c, step, who), (v, info) in zip(meta, check_values(ctx, 'c01hist', vc, relbits=-30)):
+        if v == 'differ':
+            w = {'E': c['E'], 'P': c['P'], 'Q': c['Q'], 'betas': c['betas'], 'rows': c['rows'], 'script': c['script'], 'step': step}
+            if ctx.violation(f'C01/history/{who}-step{step}', f'in the history {c["script"]} the value of {who} at step {step} is outside the '
+                             'enclosure of its mathematical value (another evaluation in between changed it)', w, info, None):
+                st.disagree({'script': c['script'], 'step': step, 'who': who, 'E': strip_sids(c['E'])}, info, None)
+    if st.disagreements:
+        ctx.stream_broken('history_shared', f'{len(st.disagreements)} disagreements; first: {json.dumps(st.disagreements[0], default=str)[:500]}')
 
 
 def stream_phi_grid(ctx):
@@ -207,6 +268,7 @@ def run(ctx):
     stream_sig(ctx)
     stream_stale(ctx)
     stream_phi_grid(ctx)
+    stream_history(ctx)
 
 
 def replay(ctx, path):
